@@ -425,6 +425,8 @@ where
     }
 
     fn process(&mut self, n: &mut Node) {
+        #[cfg(feature = "verif")]
+        crate::verif::tick(crate::verif::Site::OptimizerNode);
         self.walk.skip_children = false;
         if !self.postorder {
             (self.func)(n, &mut self.walk);
